@@ -100,7 +100,7 @@ prop("C33",
 
 
 prop("C04",
-     units=["atomic", "modelatomic", "renamesheet", "cols", "rows", "uisel", "styles"],
+     units=["atomic", "modelatomic", "renamesheet", "cols", "rows", "uisel", "styles", "record"],
      scans=["history-writers"],
      level="proof",
      claim="each user-model operation under contract (list in coverage.functions_under_contract: 25 operations incl. the bulk width/height/hidden setters and the "
